@@ -368,3 +368,35 @@ func verifC18_ServerLock() {
 		verifCover("two-holders-in-sequence")
 	}
 }
+
+// verifC18_FreshCluster: a cluster that has no version key yet. A read-only request passes the
+// config-version attacher (which reads the version for its response header) while the first
+// mutation runs; a second mutation follows. Reading never writes: the two mutations get the
+// versions 1 and 2, and the stored version ends at 2.
+func verifC18_FreshCluster() {
+	store := &vStore{kv: map[string]string{}, mu: &sync.Mutex{}, etcd: &vEtcdLock{holder: -1}, member: 0}
+	s := &Server{cluster: store, super: &supervisor.Supervisor{}}
+	dm := &dynamicMux{server: s}
+	vToks["f1"], vToks["f2"] = vTok{"a", "K1"}, vTok{"b", "K1"}
+	create := func(tok string) *vRespWriter {
+		w := &vRespWriter{hdr: http.Header{}}
+		r := &http.Request{Method: "X", URL: &url.URL{Path: "/objects"}, Body: &vBodyReader{s: tok}}
+		dm.newConfigVersionAttacher(http.HandlerFunc(func(w http.ResponseWriter, r *http.Request) { s.createObject(w, r) })).ServeHTTP(w, r)
+		return w
+	}
+	var wg sync.WaitGroup
+	wg.Add(2)
+	var w1 *vRespWriter
+	go func() { defer wg.Done(); w1 = create("f1") }()
+	go func() {
+		defer wg.Done()
+		w := &vRespWriter{hdr: http.Header{}}
+		r := &http.Request{Method: "GET", URL: &url.URL{Path: "/objects"}, Body: &vBodyReader{}}
+		dm.newConfigVersionAttacher(http.HandlerFunc(func(w http.ResponseWriter, r *http.Request) {})).ServeHTTP(w, r)
+	}()
+	wg.Wait()
+	w2 := create("f2")
+	verifAssert(w1.hdr.Get(ConfigVersionKey) == "1" && w2.hdr.Get(ConfigVersionKey) == "2", "versions-grow-by-one-per-successful-mutation")
+	verifAssert(store.kv["/config/version"] == "2", "stored-version-counts-successful-mutations")
+	verifCover("fresh-cluster")
+}
